@@ -16,7 +16,10 @@ UTF8_ADD = z3.ForAll([_a, _b], utf8len(z3.Concat(_a, _b)) == utf8len(_a) + utf8l
 UTF8_WHY = "utf8len (len(s.encode('utf-8'))) is additive over concatenation, utf8len('')=0, utf8len(s)>=len(s) (UTF-8 encodes code points independently)"
 
 
-@contract(LSIO + ".write", prop="C07")
+def _limited_write(prop):
+    contract(LSIO + ".write", prop=prop)(limited_write)
+
+
 def limited_write(c):
     text, s = c.str("text"), c.str("s")
     size, limit = c.int("size"), c.int("limit")
@@ -33,11 +36,17 @@ def limited_write(c):
     c.ensures("size-is-utf8-bytes-of-contents", lambda r: sz(r) == utf8len(txt(r)))
     c.ensures("contents-never-exceed-limit", lambda r: z3.Or(txt(r) == z3.StringVal(""), utf8len(txt(r)) <= limit.t))
     c.ensures("limit-unchanged", lambda r: r.st.deref(self).fields["limit"].t == limit.t)
+    # TextIO.write returns the number of characters written: the render methods ADD these up, so an
+    # int is returned for every string, the empty one included
+    c.ensures("returns-the-number-of-characters-written", lambda r: z3.And(z3.BoolVal(isinstance(r.value, VInt)), (r.value.t == L(s.t)) if isinstance(r.value, VInt) else z3.BoolVal(False)))
     c.raises("OutputStreamLimitError")
     c.ensures_exc("raises-iff-would-exceed-and-nothing-written", lambda r: z3.And(s.t != z3.StringVal(""), size.t + utf8len(s.t) > limit.t, txt(r) == text.t))
     c.ensures("no-raise-means-within-limit", lambda r: z3.Or(s.t == z3.StringVal(""), size.t + utf8len(s.t) <= limit.t))
     c.cover("writes", lambda r: L(s.t) > 0 if r.exc is None else None)
     c.replay("code", code=REPLAY_OUTPUT)
+
+
+_limited_write("C07")
 
 
 @contract(CTX + ".get_buffer", prop="C07", name="get_buffer[nested]")
